@@ -425,8 +425,9 @@ class DecodeBody(CircuitContract):
         rd = ItemReader(p0, lambda a: ir(a), lambda a: rt(a), lambda a, b: ri(a, b), lambda a: nm(a))
         self.rd0 = ItemReader(p0, rd.is_rec, rd.rtyp, rd.rid, rd.num)
         # precondition (shape of the stream the encoder produces): intermediates_count records of supported types, then numbers
-        ctx.assume(z3.ForAll([j], z3.Implies(z3.And(j >= 0, j < m), z3.And(ir(p0 + j), supported(rt(p0 + j))))))
-        ctx.assume(z3.ForAll([j], z3.Implies(z3.And(j >= 0, j < q), z3.Not(ir(p0 + m + j)))))
+        # (stated over the absolute position, so that the instances are found by matching is_rec(p) alone)
+        ctx.assume(z3.ForAll([j], z3.Implies(z3.And(j >= p0, j < p0 + m), z3.And(ir(j), supported(rt(j)))), patterns=[ir(j)]))
+        ctx.assume(z3.ForAll([j], z3.Implies(z3.And(j >= p0 + m, j < p0 + m + q), z3.Not(ir(j))), patterns=[ir(j)]))
         self.ds = DecodeState(self)
         contract = self
 
